@@ -8,7 +8,7 @@
      n = "at"   : r = Env._at(t / 64)
    One verdict line per trace (<<"ACC", id>> or <<"REJ", id, index, why>>).                *)
 EXTENDS Integers, Sequences, FiniteSets, TLC, Json, IOUtils
-Levels == {} Times == {} Curves == {} MaxSeg == 0 QTicks == {}
+Levels == {} Times == {} Curves == {} MaxSeg == 0 MaxPts == 0 QTicks == {}
 VARIABLES env, op, tq, fmt, val, part
 INSTANCE Env
 Traces == JsonDeserialize(IOEnv.VERIF_TRACES)
